@@ -360,6 +360,53 @@ def f_spec_wf_country(a):
     return "1"
 
 
+def f_validate_national(a):
+    return guard(lambda: eb(BBAN(dec(a[0]), dec(a[1])).validate_national_checksum()))
+
+
+def f_from_components(a):
+    return guard(lambda: enc(str(BBAN.from_components(dec(a[0]), bank_code=dec(a[1]), branch_code=dec(a[2]),
+                                                      account_code=dec(a[3])))))
+
+
+def f_generate(a):
+    return guard(lambda: enc(str(IBAN.generate(dec(a[0]), dec(a[1]), dec(a[2]), dec(a[3])))))
+
+
+def f_spec_national_accept(a):
+    try:
+        IBAN(dec(a[0]), validate_bban=True)
+        return "1"
+    except Exception:  # noqa: BLE001
+        return "0"
+
+
+def f_spec_published(a):
+    """national verdict of the implementation on a structure-conforming BBAN: true / raises"""
+    try:
+        r = BBAN(dec(a[0]), dec(a[1])).validate_national_checksum()
+        return "1" if r is True else ("RETURNED-" + repr(r))
+    except exceptions.InvalidBBANChecksum:
+        return "0"
+    except Exception as e:  # noqa: BLE001
+        return canon_exc(e)
+
+
+def f_spec_only_rejects(a):
+    t = dec(a[0])
+
+    def acc(vb):
+        try:
+            IBAN(t, validate_bban=vb)
+            return True
+        except exceptions.SchwiftyException:
+            return False
+    try:
+        return "OK" if (not acc(True)) or acc(False) else "ACCEPTED-ONLY-WITH-NATIONAL-VALIDATION"
+    except Exception as e:  # noqa: BLE001
+        return canon_exc(e)
+
+
 # property oracles: the implementation side of a spec comparison
 def _verdict(make, make_unvalidated):
     """ACCEPT | <schwifty class> | CRASH <cls> | INCONSISTENT <what>  (constructor, validate(), is_valid)"""
